@@ -245,9 +245,12 @@ COMBINATORS = {
     "std::result::Result::map_or": "res_map_or",
     "std::result::Result::map_or_else": "res_map_or_else",
     "std::result::Result::unwrap_or_else": "res_unwrap_or_else",
+    "std::result::Result::is_ok_and": "res_is_ok_and",
+    "std::option::Option::is_some_and": "opt_is_some_and",
     "std::iter::Iterator::for_each": "for_each",
     "std::iter::Iterator::all": "iter_all",
     "std::iter::Iterator::any": "iter_any",
+    "std::iter::Iterator::fold": "iter_fold",
 }
 
 
@@ -269,9 +272,17 @@ def combinator_of(t):
     if n in COMBINATORS:
         return COMBINATORS[n]
     # `<std::slice::Iter<'a, T> as std::iter::Iterator>::for_each` and friends
-    m = re.match(r"^<.* as std::iter::Iterator>::(for_each|all|any)$", c)
+    m = re.match(r"^<.* as std::iter::Iterator>::(for_each|all|any|fold)$", c)
     if m:
-        return {"for_each": "for_each", "all": "iter_all", "any": "iter_any"}[m.group(1)]
+        return {"for_each": "for_each", "all": "iter_all", "any": "iter_any", "fold": "iter_fold"}[m.group(1)]
+    return None
+
+
+def combinator_call_name(t):
+    """'map' for a call of Iterator::map (trait or adaptor path), else None."""
+    c = t.get("callee", "") if isinstance(t, dict) else ""
+    if strip_generics_simple(c) == "std::iter::Iterator::map" or re.match(r"^<.* as std::iter::Iterator>::map$", c):
+        return "map"
     return None
 
 
@@ -548,6 +559,10 @@ def _desugar_one(S, bi, tpl, closure_lookup):
         bb["term"] = term
         return True
 
+    if tpl in ("res_is_ok_and", "opt_is_some_and") and len(args) == 2:
+        # x.is_ok_and(f) is x.map_or(false, f)
+        args = [args[0], {"k": "const", "ty": "bool", "v": 0}, args[1]]
+        tpl = "res_map_or" if tpl.startswith("res") else "opt_map_or"
     if tpl in ("opt_map_or", "res_map_or"):
         # map_or(default, f)
         c = _closure_arg(S, args[2], closure_lookup) if len(args) == 3 else None
@@ -590,6 +605,67 @@ def _desugar_one(S, bi, tpl, closure_lookup):
         stmts, term = switch_on(recv, rty, [(hit_idx, e_hit), (miss_idx, e_miss)], unreachable())
         bb["stmts"] += stmts
         bb["term"] = term
+        return True
+
+    if tpl == "iter_fold":
+        # it.fold(init, |acc, x| body)  ==  let mut acc = init; for x in it { acc = body }; acc
+        # (and it.map(g).fold(..): each element goes through g first)
+        c = _closure_arg(S, args[2], closure_lookup) if len(args) == 3 else None
+        if c is None:
+            return False
+        cb, caps = c
+        if len(cb["locals"]) < 4:
+            return False
+        aty = cb["locals"][2]["ty"]
+        src_op, src_ty = args[0], rty
+        mapper = None
+        if args[0].get("k") in ("move", "copy") and not args[0]["pl"]["p"]:
+            d_ = _single_def(S, args[0]["pl"]["l"])
+            if d_ is not None and d_[1] is None and combinator_call_name(d_[2]) == "map" and len(d_[2]["args"]) == 2:
+                mc = _closure_arg(S, d_[2]["args"][1], closure_lookup)
+                if mc is not None:
+                    mapper = mc
+                    src_op = d_[2]["args"][0]
+                    src_ty = (d_[2].get("argtys") or [rty])[0]
+        ety = (mapper[0]["locals"][2]["ty"] if mapper and len(mapper[0]["locals"]) > 2 else cb["locals"][3]["ty"])
+        it = S.new_local(src_ty, user=False)
+        acc = S.new_local(aty, user=True)
+        pname = next((d__["name"] for d__ in cb.get("debug", []) if d__["pl"]["l"] == 2 and not d__["pl"]["p"]), "acc")
+        S.debug.append({"name": pname, "pl": P(acc)})
+        if mapper is None:
+            bb["stmts"].append(assign(P(it), use(copy.deepcopy(src_op)), sp))
+        else:
+            # the Map adaptor was built from (inner, g): take the inner iterator where the adaptor was made
+            mb_, _msi, mt_ = d_
+            S.blocks[mb_]["stmts"].append(assign(P(it), use(copy.deepcopy(src_op)), sp))
+            S.blocks[mb_]["term"] = goto(mt_["t"], sp)
+        bb["stmts"].append(assign(P(acc), use(copy.deepcopy(args[1])), sp))
+        nxt = S.new_local("std::option::Option<%s>" % ety)
+        ref = S.new_local("&mut " + src_ty)
+        elem_op = mv(_payload(P(nxt), OPTION, "Some"))
+        head = S.new_block()
+        sw = S.new_block()
+        if mapper is not None:
+            m_entry, m_loff, m_rets = _splice_closure(S, mapper[0], mapper[1], [elem_op], sp)
+            entry, loff, rets = _splice_closure(S, cb, caps, [mv(P(acc)), mv(P(m_loff))], sp)
+            for rb in m_rets:
+                S.blocks[rb]["term"] = goto(entry, sp)
+            first = m_entry
+        else:
+            entry, loff, rets = _splice_closure(S, cb, caps, [mv(P(acc)), elem_op], sp)
+            first = entry
+        for rb in rets:
+            S.blocks[rb]["stmts"].append(assign(P(acc), use(mv(P(loff))), sp))
+            S.blocks[rb]["term"] = goto(head, sp)
+        done = S.new_block([assign(copy.deepcopy(dest), use(mv(P(acc))), sp)], goto(cont, sp))
+        S.blocks[head]["stmts"].append(assign(P(ref), {"k": "ref", "bk": "mut", "pl": P(it)}, sp))
+        S.blocks[head]["term"] = {"k": "call", "callee": "std::iter::Iterator::next", "item": "next", "gargs": [src_ty], "trait": "std::iter::Iterator",
+                                  "resolved": "std::iter::Iterator::next", "rkind": "item", "args": [mv(P(ref))], "argtys": ["&mut " + src_ty],
+                                  "dest": P(nxt), "destty": "std::option::Option<%s>" % ety, "t": sw, "uw": None, "fsp": sp, "sp": sp, "desugared": tpl}
+        stmts, term = switch_on(P(nxt), "std::option::Option<%s>" % ety, [(1, first), (0, done)], unreachable())
+        S.blocks[sw]["stmts"] += stmts
+        S.blocks[sw]["term"] = term
+        bb["term"] = goto(head, sp)
         return True
 
     if tpl in ("for_each", "iter_all", "iter_any"):
